@@ -41,6 +41,93 @@ fn lerp_all<S: Sc>(d: &mut Draw) -> Outcome {
     pass(if nt { "interior-or-extrapolating" } else { "endpoint" }, nt)
 }
 
+
+/// lerp in native floats: a + (b - a) t, for amounts far outside [0,1] and operands that are equal or nearly so
+fn lerp_f64(d: &mut Draw) -> Outcome {
+    use cgmath::{Matrix2, Vector1, Vector2, Vector3, Vector4};
+    let a: Vec<f64> = (0..4).map(|_| if d.chance(1, 8) { d.int(-3, 3) as f64 } else { d.f64_slog(1e-3, 1e3) }).collect();
+    let kind = d.int(0, 3);
+    let b: Vec<f64> = match kind {
+        0 => a.clone(),
+        1 => a.iter().map(|x| x + x.abs() * d.f64_slog(1e-12, 1e-3)).collect(),
+        _ => (0..4).map(|_| d.f64_slog(1e-3, 1e3)).collect(),
+    };
+    let t = match d.int(0, 5) {
+        0 => d.unit(),
+        1 => d.int(-5, 5) as f64,
+        2 => d.f64_slog(1e2, 1e17),
+        3 => d.f64_slog(1e-12, 1e-2),
+        4 => d.pick(&[0.0, 1.0, -0.0, 2.0, -1.0]),
+        _ => d.f64_in(-3.0, 4.0),
+    };
+    d.note("a", &a);
+    d.note("b", &b);
+    d.note("t", &t);
+    let want: Vec<f64> = (0..4).map(|i| a[i] + (b[i] - a[i]) * t).collect();
+    let tol: Vec<f64> = (0..4).map(|i| 4.0 * f64::EPSILON * (a[i].abs() + ((b[i] - a[i]) * t).abs()) + 1e-300).collect();
+    macro_rules! one {
+        ($got:expr, $n:expr, $name:expr) => {{
+            let got: Vec<f64> = $got;
+            for i in 0..$n {
+                ensure!((got[i] - want[i]).abs() <= tol[i] || got[i] == want[i], concat!("lerp-f64-", $name), "{}::lerp component {}: {:e}, a + (b-a)t = {:e} (a = {:e}, b = {:e}, t = {:e})", $name, i, got[i], want[i], a[i], b[i], t);
+            }
+        }};
+    }
+    let r = Vector1::new(a[0]).lerp(Vector1::new(b[0]), t);
+    one!(vec![r.x], 1, "Vector1");
+    let r = Vector2::new(a[0], a[1]).lerp(Vector2::new(b[0], b[1]), t);
+    one!(vec![r.x, r.y], 2, "Vector2");
+    let r = Vector3::new(a[0], a[1], a[2]).lerp(Vector3::new(b[0], b[1], b[2]), t);
+    one!(vec![r.x, r.y, r.z], 3, "Vector3");
+    let r = Vector4::new(a[0], a[1], a[2], a[3]).lerp(Vector4::new(b[0], b[1], b[2], b[3]), t);
+    one!(vec![r.x, r.y, r.z, r.w], 4, "Vector4");
+    let r = Quaternion::new(a[0], a[1], a[2], a[3]).lerp(Quaternion::new(b[0], b[1], b[2], b[3]), t);
+    one!(vec![r.s, r.v.x, r.v.y, r.v.z], 4, "Quaternion");
+    let r = Matrix2::new(a[0], a[1], a[2], a[3]).lerp(Matrix2::new(b[0], b[1], b[2], b[3]), t);
+    one!(vec![r.x.x, r.x.y, r.y.x, r.y.y], 4, "Matrix2");
+    pass(match kind { 0 => "equal-operands", 1 => "nearby-operands", _ => "generic" }, t != 0.0 && t != 1.0)
+}
+
+/// lerp on integer vectors: the outcome (value, or the overflow panic of this build) of a + (b - a) t per component
+macro_rules! lerp_int {
+    ($fname:ident, $S:ty) => {
+        fn $fname(d: &mut Draw) -> Outcome {
+            use cgmath::{Vector1, Vector2, Vector3, Vector4};
+            let w = |d: &mut Draw| -> $S {
+                match d.int(0, 3) {
+                    0 => d.bits64() as $S,
+                    1 => d.pick(&[<$S>::MAX, <$S>::MAX - 1, <$S>::MIN, 0, 1, 2]),
+                    _ => d.int(0, 100) as $S,
+                }
+            };
+            let a: Vec<$S> = (0..4).map(|_| w(d)).collect();
+            let b: Vec<$S> = (0..4).map(|i| if d.chance(1, 3) { a[i].wrapping_add(d.int(0, 3) as $S) } else { w(d) }).collect();
+            let t: $S = match d.int(0, 3) { 0 => 0, 1 => 1, 2 => d.int(2, 5) as $S, _ => w(d) };
+            d.note("a, b, t", &(a.clone(), b.clone(), t));
+            let out = |f: &dyn Fn() -> Vec<$S>| vcore::engine::catches(|| f()).ok();
+            let prim = |n: usize| -> Option<Vec<$S>> { let (a, b) = (a.clone(), b.clone()); out(&move || (0..n).map(|i| a[i] + (b[i] - a[i]) * t).collect()) };
+            let mut panics = 0;
+            macro_rules! one {
+                ($n:expr, $got:expr, $name:expr) => {{
+                    let want = prim($n);
+                    let got: Option<Vec<$S>> = out(&|| $got);
+                    if want.is_none() { panics += 1; }
+                    ensure!(got == want, concat!("lerp-int-", $name), "{}<{}>::lerp: {:?}, a + (b-a)t per component: {:?} (None = overflow panic)", $name, stringify!($S), got, want);
+                }};
+            }
+            one!(1, { let r = Vector1::new(a[0]).lerp(Vector1::new(b[0]), t); vec![r.x] }, "Vector1");
+            one!(2, { let r = Vector2::new(a[0], a[1]).lerp(Vector2::new(b[0], b[1]), t); vec![r.x, r.y] }, "Vector2");
+            one!(3, { let r = Vector3::new(a[0], a[1], a[2]).lerp(Vector3::new(b[0], b[1], b[2]), t); vec![r.x, r.y, r.z] }, "Vector3");
+            one!(4, { let r = Vector4::new(a[0], a[1], a[2], a[3]).lerp(Vector4::new(b[0], b[1], b[2], b[3]), t); vec![r.x, r.y, r.z, r.w] }, "Vector4");
+            pass(if panics == 0 { "no-overflow" } else if panics == 4 { "all-overflow" } else { "some-overflow" }, true)
+        }
+    };
+}
+lerp_int!(lerp_i32, i32);
+lerp_int!(lerp_u32, u32);
+lerp_int!(lerp_i8, i8);
+lerp_int!(lerp_u64, u64);
+
 fn dot4(a: &[f64; 4], b: &[f64; 4]) -> f64 {
     a[0] * b[0] + a[1] * b[1] + a[2] * b[2] + a[3] * b[3]
 }
@@ -239,6 +326,11 @@ pub fn property() -> Property {
     }
     add!("lerp-Q", "Q", lerp_all::<Q>, 3000, 200_000, 360, &[("interior-or-extrapolating", 500)], "t not in {0,1}");
     add!("lerp-Fp", "Fp", lerp_all::<Fp>, 3000, 200_000, 360, &[("interior-or-extrapolating", 500)], "t not in {0,1}");
+    add!("lerp-f64", "f64", lerp_f64, 6000, 400_000, 64, &[("equal-operands", 100), ("nearby-operands", 100), ("generic", 200)], "t not in {0,1}");
+    add!("lerp-i32", "i32", lerp_i32, 1500, 100_000, 32, &[("no-overflow", 100)], "every operand tuple over the whole integer range");
+    add!("lerp-u32", "u32", lerp_u32, 1500, 100_000, 32, &[("no-overflow", 100)], "every operand tuple over the whole integer range");
+    add!("lerp-i8", "i8", lerp_i8, 1500, 100_000, 32, &[("no-overflow", 100)], "every operand tuple over the whole integer range");
+    add!("lerp-u64", "u64", lerp_u64, 1500, 100_000, 32, &[("no-overflow", 100)], "every operand tuple over the whole integer range");
     add!("nlerp_slerp-f64", "f64", interp_f64, 20000, 1_000_000, 80,
         &[("generic+", 50), ("generic-", 50), ("generic-endpoint", 30), ("nearly-parallel", 30), ("nearly-opposite", 30), ("hand-over+", 50), ("hand-over-", 50), ("orthogonal", 30), ("orthogonal-disjoint-support", 30), ("hand-over-exactly-at-threshold", 20), ("equal", 15), ("exactly-opposite", 15)],
         "every generated pair; all pair classes, both signs of a.b and both endpoints required");
